@@ -496,6 +496,39 @@ fn raw_strategy() -> impl Strategy<Value = RawBytes> + Clone {
     .prop_map(RawBytes)
 }
 
+/// Fuzz entry: raw bytes through every byte-level parser (and the string parsers when UTF-8).
+pub fn fuzz_bytes(data: &[u8]) -> Outcome {
+    if let o @ Outcome::Violation { .. } = raw_case(&RawBytes(data.to_vec())) { return o; }
+    if let o @ Outcome::Violation { .. } = pk_bytes(&PkBytes(data.to_vec())) { return o; }
+    if let Ok(s) = std::str::from_utf8(data) {
+        if let o @ Outcome::Violation { .. } = pk_string(&PkString(s.to_string())) { return o; }
+        if let Ok(c) = CustomAddr::from_str(s) {
+            if let o @ Outcome::Violation { .. } = custom_routes(&c, c.id(), &c.data().to_vec()) { return o; }
+        }
+    }
+    Outcome::pass(false)
+}
+
+fn fuzz_seeds() -> Vec<Vec<u8>> {
+    let id = SecretKey::from_bytes(&[7; 32]).public();
+    let e = EndpointAddr::from_parts(id, [
+        TransportAddr::Relay(RelayUrl::from_str("https://relay.example./x?a=b").unwrap()),
+        TransportAddr::Ip("[::1]:7".parse().unwrap()),
+        TransportAddr::Ip("1.2.3.4:5".parse().unwrap()),
+        TransportAddr::Custom(CustomAddr::from_parts(9, &[1; 31])),
+    ]);
+    vec![
+        postcard::to_stdvec(&e).unwrap(),
+        serde_json::to_vec(&e).unwrap(),
+        id.as_bytes().to_vec(),
+        id.to_string().into_bytes(),
+        gens::b32_encode(gens::RFC4648_UPPER, id.as_bytes()).into_bytes(),
+        id.to_z32().into_bytes(),
+        CustomAddr::from_parts(0xabc, &[3; 30]).to_string().into_bytes(),
+        CustomAddr::from_parts(0xabc, &[3; 40]).to_vec(),
+    ]
+}
+
 pub fn run(ctx: &Ctx) {
     ctx.rule("cases: 32-byte key candidates (uniform, derived from secrets, near-p/non-canonical y, 1-bit edits), strings built from valid encodings with 0-2 edits, sign/verify tuples, custom addresses (id over u64, payload length dense around 30/31), endpoint addresses with postcard edits, raw byte strings; non-trivial = input accepted by a parser, or at a length boundary (32 bytes / 50-54 / 62-66 chars / 26-34 payload bytes), or an edited encoding");
     ctx.assume("ed25519-dalek/curve25519-dalek called directly and a num-bigint point check serve as independent references");
@@ -506,5 +539,6 @@ pub fn run(ctx: &Ctx) {
     ctx.explore("custom_addr", ExploreOpts::new(10_000 * k), custom_strategy, custom_case);
     ctx.explore("endpoint_addr", ExploreOpts::new(8_000 * k), ea_strategy, ea_case);
     ctx.explore("raw_bytes", ExploreOpts::new(15_000 * k), raw_strategy, raw_case);
+    ctx.fuzz_campaign("c02_bytes", ctx.tier.pick(0, 3_000_000), 512, fuzz_seeds(), &fuzz_bytes);
     let _ = IpAddr::V4(Ipv4Addr::LOCALHOST);
 }
